@@ -56,6 +56,7 @@ ObsLabels(p, lg, l0, cl, st, grp, gk, km, ob) ==
 
 SweepLabels(e) ==
     UNION { ObsLabels(p, log'[p], lo'[p], cacheLo'[p], stored'[p], groups', gkeys, kmap, e.obs[p]) : p \in DOMAIN log' }
+    \cup (IF "plain_hits" \in DOMAIN e.obs[1] /\ e.obs[1].plain_hits # 0 THEN {<<"C19.plaintext_on_disk", e.obs[1].plain_hits>>} ELSE {})
     \cup (LET tot == [p \in DOMAIN log' |-> Len(log'[p]) - lo'[p]]
               sum[i \in 0..Len(tot)] == IF i = 0 THEN 0 ELSE sum[i - 1] + tot[i]
           IN IF \E p \in DOMAIN log' : e.obs[p].tcount # sum[Len(tot)] THEN {<<"C16.tcount">>} ELSE {})
@@ -86,6 +87,13 @@ Fatal(e) ==
     /\ bad' = {<<"X.fatal", e.ev, e.fatal>>}
 
 Skip == UNCHANGED <<vars, kmap, gkeys, dead>> /\ bad' = {}
+
+(* C19: a restart with a different encryption key ends the scenario: the server may refuse to start or answer errors, *)
+(* it must never hand out the old data as if it were content                                                         *)
+WrongKey(e) ==
+    /\ UNCHANGED <<vars, kmap, gkeys>> /\ dead' = TRUE
+    /\ bad' = IF \E i \in 1..Len(e.outcome) : e.outcome[i] \in {"messages", "plaintext"}
+              THEN {<<"C19.wrong_key_served", e.outcome>>} ELSE {}
 
 Input(e) ==
     CASE e.ev = "append" ->
@@ -146,6 +154,7 @@ TraceNext ==
     /\ LET e == Rec[l] IN
        IF e.ev = "reset" THEN Reset(e)
        ELSE IF dead THEN Skip
+       ELSE IF e.ev = "restart_wrong_key" THEN WrongKey(e)
        ELSE IF "fatal" \in DOMAIN e THEN Fatal(e)
        ELSE Step(e)
 
